@@ -533,6 +533,95 @@ fn file_kinds_family(rep: &mut Report) {
     rep.cov_add("traces_validated_against_impl", jobs.len() as u64);
 }
 
+/// Files of every size around the read-buffer boundaries: where in a file an annotation sits — in particular relative to
+/// the 4 KiB … 64 KiB marks any chunked pre-scan would use — must not decide whether the file is read. Each file's only
+/// mention of the word `typeshare` is its one `#[typeshare]`, at a chosen byte offset.
+fn file_sizes_family(rep: &mut Report) {
+    use crate::cli::{self, par_map, run_cli, s, Scratch};
+    if !cli::bin_available() {
+        return; // reported by file_kinds_family
+    }
+    const BOUNDARIES: [usize; 5] = [4096, 8192, 16384, 32768, 65536];
+    const STYLES: [&str; 3] = ["one-long-comment-line", "multi-byte-comment", "unannotated-items"];
+    // byte offset of the word `typeshare`, relative to the boundary: every way the 9 bytes can straddle it, and both sides
+    let rel: Vec<i64> = (-10..=1).collect();
+    fn padding(style: &str, n: usize) -> String {
+        match style {
+            "one-long-comment-line" => format!("//{}\n", "x".repeat(n - 3)),
+            "multi-byte-comment" => {
+                // 3-byte characters up to the end, so that chunk boundaries fall inside a character
+                let body = n - 3;
+                format!("//{}{}\n", "x".repeat(body % 3), "€".repeat(body / 3))
+            }
+            _ => {
+                let mut out = String::new();
+                let mut i = 0;
+                while out.len() + 64 <= n {
+                    out.push_str(&format!("pub struct Pad{i:05} {{ pub a: u32 }}\n"));
+                    i += 1;
+                }
+                let left = n - out.len();
+                if left >= 3 {
+                    out.push_str(&format!("//{}\n", "y".repeat(left - 3)));
+                } else {
+                    out.push_str(&" ".repeat(left));
+                }
+                out
+            }
+        }
+    }
+    let mut jobs = Vec::new();
+    for style in STYLES {
+        for &lang in &ALL_LANGS {
+            jobs.push((style, lang));
+        }
+    }
+    let rel2 = rel.clone();
+    let results = par_map(&jobs, report::threads(), move |(style, lang)| {
+        let sc = Scratch::new("c03z");
+        let mut names = Vec::new();
+        for b in BOUNDARIES {
+            for r in &rel2 {
+                let word_at = (b as i64 + r) as usize;
+                let name = format!("At{b}{}{}", if *r < 0 { "m" } else { "p" }, r.abs());
+                let mut src = padding(style, word_at - 2);
+                debug_assert_eq!(src.len(), word_at - 2);
+                src.push_str(&format!("#[typeshare]\npub struct {name} {{ pub v: u32 }}\n"));
+                sc.write(&format!("ws/app/src/f_{name}.rs"), src.as_bytes());
+                names.push((name, b, *r, src.len()));
+            }
+        }
+        sc.mkdir("out");
+        let mut args = cli::lang_args(*lang);
+        args.extend([s("-o"), sc.path(&format!("out/types.{}", lang.ext())).to_string_lossy().into_owned(), sc.path("ws").to_string_lossy().into_owned()]);
+        let r = run_cli(&args, &sc.root, &[], cli::TIMEOUT);
+        let text: String = cli::snapshot(&sc.path("out")).values().map(|v| String::from_utf8_lossy(v).into_owned()).collect::<Vec<_>>().join("\n");
+        (r.class(), r.stderr.chars().take(500).collect::<String>(), text, names)
+    });
+    let mut judged = 0u64;
+    for ((style, lang), (class, stderr, text, names)) in jobs.iter().zip(results.iter()) {
+        if *class != "ok" {
+            rep.vios.add(Violation { sig: format!("C03|{}|file-sizes|run-{class}|style={style}", lang.name()), detail: json!({"padding": style, "exit": class, "stderr": stderr}) });
+            continue;
+        }
+        let toks: std::collections::HashSet<&str> = text.split(|c: char| !c.is_alphanumeric() && c != '_').collect();
+        for (name, b, r, size) in names {
+            judged += 1;
+            let want = crate::refmodel::prefixed(*lang, &Cfg::plain(), name);
+            if !toks.contains(want.as_str()) {
+                rep.vios.add(Violation {
+                    sig: format!("C03|{}|file-sizes|annotated-item-missing|style={style}|boundary={b}", lang.name()),
+                    detail: json!({"padding": style, "lang": lang.name(), "file_bytes": size, "offset_of_the_word_typeshare": (*b as i64 + r), "relative_to_boundary": r, "boundary": b,
+                        "observation": format!("{name} is annotated (the file's only mention of typeshare is that attribute) and must be generated"), "stderr": stderr}),
+                });
+            }
+        }
+    }
+    rep.cov("file_sizes", json!({"process_runs": jobs.len(), "files_per_run": BOUNDARIES.len() * rel.len(), "boundaries": BOUNDARIES, "offset_of_the_word_relative_to_boundary": rel, "padding_styles": STYLES, "languages": 6}));
+    rep.cov_add("evaluations", judged);
+    rep.cov_add("traces_validated_against_impl", jobs.len() as u64);
+}
+
 fn controls(rep: &mut Report) {
     let canned = "export interface Outer {\n\tm0: number;\n\tm2: boolean;\n}\n\nexport interface Extra {\n}\n";
     match crate::extract::extract(Lang::TypeScript, canned) {
@@ -612,6 +701,7 @@ pub fn run(args: &[String]) -> i32 {
         check_members(&c, &ch.choices(), acc);
     });
     file_kinds_family(&mut rep);
+    file_sizes_family(&mut rep);
     require_nonvacuous(&mut rep);
     rep.cov("rule", json!("items family: every sequence of 1..N items over 7 item kinds × annotated/un-annotated × module depth 0..2 × language: the definitions recovered from the output (minus Inner helpers) must equal the annotated items; members family: every skip pattern over three members (27) × skip spelling × attribute style × rename × 4 container kinds × language: members must equal the non-skipped source members in source order. non-trivial = something is un-annotated / nested in a module / skipped."));
     rep.assume("an annotated const in a backend without const support must make the run fail with an error; output without it is a silent omission");
